@@ -46,6 +46,7 @@ def rules(ctx):
     ctx.rule("MIN-2", "a block split by the parent set is replaced by the intersection and the difference, both inserted where the block was removed")
     ctx.rule("MIN-3", "the difference half is block minus parent set (receiver derives from the partition, argument from the parent-state function)")
     ctx.rule("MIN-4", "work list update: both halves when the split block was pending, at least one half otherwise (every path to the next replacement)")
+    ctx.rule("MIN-6", "the refinement loop is left only when the work list is empty (no round limit or other early exit)")
     ctx.rule("MIN-5", "the classes handed to the rebuild are the partition, filtered by non-emptiness only")
 
 
@@ -285,6 +286,48 @@ def check(ctx, lib):
                               "before the partition is stable", M.loc(ct.get("line")))
     if okw:
         ctx.ok("MIN-4", M.path + ":work list", {"pushes": len(pushes)}, M.loc(ct.get("line")))
+    # ---- MIN-6: the refinement runs to the fixpoint: the outer loop is left only when the work list is empty
+    parent_calls = [bi for bi, t in M.calls() if lib.body(callee_name(t) or "") is not None and _is_state_set(lib.body(callee_name(t)).sig_output)]
+    outer = None
+    for h, body_ in loops.items():
+        if parent_calls and all(pc in body_ for pc in parent_calls) and (outer is None or len(body_) > len(outer[1])):
+            outer = (h, body_)
+    if outer is None:
+        ctx.undecided("MIN-6", M.path, "cannot find the loop that takes splitters from the work list", M.loc())
+    else:
+        h, body_ = outer
+        bad6 = None
+        nexit = 0
+        for b_ in sorted(body_):
+            blk = M.blocks[b_]
+            t = blk.get("term")
+            if not t or blk.get("cleanup"):
+                continue
+            outs = [x for x in fi.cfg.succ.get(b_, []) if x not in body_ and M.blocks[x].get("term", {}).get("k") != "unreachable"]
+            if not outs:
+                continue
+            if t["k"] != "switch":
+                continue
+            nexit += 1
+            o = local.peel(dm.operand(t["discr"]))
+            neg = 0
+            while o[0] == "unop" and len(o) > 2:
+                o = local.peel(o[2])
+                neg += 1
+            if o[0] == "discr":
+                o = local.peel(o[1])
+            empt = [x for x in local.walk(o) if x[0] == "call" and re.search(r"::is_empty$|Vec::<T, A>::pop$|::pop_front$|::pop_back$|Iterator>::next$|::first$|::last$", x[1]) and from_partition(x)]
+            other = [x for x in local.walk(o) if x[0] == "binop" or (x[0] == "call" and lib.body(x[1]) is not None and x[1] != G.path)]
+            okc = bool(empt) and not other
+            if not okc:
+                bad6 = (t, local.show(o)[:80])
+        if bad6:
+            ctx.violation("MIN-6", (M.path, "early exit from the refinement"), "the refinement loop can also be left when %s: the partition is then not stable, blocks still contain "
+                          "inequivalent states, and the rebuild merges them (test cases lost, other strings accepted)" % bad6[1], M.loc(bad6[0].get("line")))
+        elif nexit:
+            ctx.ok("MIN-6", M.path + ":loop ends only when the work list is empty", {"exit_tests": nexit}, M.loc())
+        else:
+            ctx.undecided("MIN-6", M.path, "the refinement loop has no recognisable exit test", M.loc())
     # ---- MIN-5
     reb = [(bi, t) for bi, t in M.calls() if lib.body(callee_name(t) or "") is not None and callee_name(t) != G.path
            and any(from_partition(dm.operand(a)) for a in t["args"][1:]) and (lib.body(callee_name(t)).sig_inputs or [""])[0].startswith("&mut dfa::Dfa")]
